@@ -3717,7 +3717,7 @@ impl CanonicalizeContext {
 				// debug!("looking for left fence: len={}, {:#?}", children.len(), self.find_operator(as_element(children[0]),None, None, Some(as_element(children[1])) ));
 				if children.len() == 2 && (name(&as_element(children[0])) != "mo" ||
 				   !CanonicalizeContext::find_operator(Some(self), as_element(children[0]),
-								None, Some(as_element(children[0])), Some(mrow) ).is_left_fence()) {
+								Some(&LEFT_FENCEPOST), Some(as_element(children[0])), Some(mrow) ).is_left_fence()) {
 					// the mrow did *not* start with an open (hence no push)
 					// since parser really wants balanced parens to keep stack state right, we do a push here
 					parse_stack.push( StackInfo::new(mrow.document()) );
